@@ -73,6 +73,9 @@ def getattr(I, st, v, name):
                 yield st, e.cls
                 return
             if name == "__dict__":
+                if "__dictdata__" in e.attrs:
+                    # the mapping payload of a dict subclass lives beside the instance attributes in the model, not in Python
+                    raise Unsupported("__dict__ of an instance of a dict subclass")
                 d = DictE()
                 d.owner = v
                 yield st, st.alloc(d)
@@ -2552,7 +2555,11 @@ def make_ext_modules(I):
             for hook in ("__reduce_ex__", "__reduce__", "__getstate__", "__setstate__"):
                 if I.class_lookup(e.cls, hook)[0] is not None:
                     raise Unsupported("copy.copy of an object with %s" % hook)
-            yield st, st.alloc(ObjE(e.cls, dict(e.attrs)))
+            attrs = dict(e.attrs)
+            if "__dictdata__" in attrs:
+                # copy.copy of a dict subclass instance: a new mapping with the same entries (copyreg: dictitems)
+                attrs["__dictdata__"] = st.alloc(DictE(dict(st.get(attrs["__dictdata__"]).items)))
+            yield st, st.alloc(ObjE(e.cls, attrs))
             return
         yield st, v
 
@@ -2580,6 +2587,8 @@ def make_ext_modules(I):
                             raise Unsupported("deepcopy of object with %s" % hook)
                     gs, _ = I.class_lookup(e.cls, "__getstate__")
                     ss, _ = I.class_lookup(e.cls, "__setstate__")
+                    if "__dictdata__" in e.attrs and (gs is not None or ss is not None):
+                        raise Unsupported("deepcopy of a dict subclass instance with __getstate__/__setstate__")
                     new = S[0].alloc(ObjE(e.cls, {}))
                     memo[v.id] = new
                     if gs is None:
